@@ -226,25 +226,32 @@ def rule_index_position(chk, prog):
             if not (loc.is_inst and loc.op == "alloca"):
                 continue
             loads = [u for u in f.uses.get(loc, []) if u.op == "load"]
-            # direct store into a heap struct field, or handed to a static helper that stores its parameter
-            for ld in loads:
-                for u in f.uses.get(ld, []):
-                    if u.op == "store" and strip_casts(u.ops[1]).is_inst and strip_casts(u.ops[1]).op == "getelementptr" and \
-                            strip_casts(u.ops[1]).field() and not strip_casts(u.ops[1]).field()[0].startswith("struct.sqfs_"):
-                        sites.append((f, c, f, u))
+
+            def follow(g, v, depth):
+                """stores of v (or of what it is handed on as) into a field of a file-local structure"""
+                out = []
+                if depth > 3:
+                    return out
+                g.build()
+                for u in g.uses.get(v, []):
+                    if u.op in ("zext", "sext", "trunc", "bitcast"):
+                        out += follow(g, u, depth)
+                    elif u.op == "store" and u.ops[0] is v and strip_casts(u.ops[1]).is_inst and \
+                            strip_casts(u.ops[1]).op == "getelementptr" and strip_casts(u.ops[1]).field() and \
+                            not strip_casts(u.ops[1]).field()[0].startswith("struct.sqfs_"):
+                        out.append((g, u))
                     elif u.op == "call" and u.callee:
-                        g = prog.fn(u.callee, unit)
-                        if g is None or g.decl or g.unit is not unit:
+                        t = prog.fn(u.callee, unit)
+                        if t is None or t.decl or t.unit is not unit:
                             continue
-                        g.build()
-                        k = [i for i, o in enumerate(u.ops) if o is ld]
-                        for i in k:
-                            if i >= len(g.params):
-                                continue
-                            for st in g.insts():
-                                if st.op == "store" and st.ops[0] is g.params[i] and strip_casts(st.ops[1]).is_inst and \
-                                        strip_casts(st.ops[1]).op == "getelementptr" and strip_casts(st.ops[1]).field():
-                                    sites.append((f, c, g, st))
+                        t.build()
+                        for i_, o in enumerate(u.ops):
+                            if o is v and i_ < len(t.params):
+                                out += follow(t, t.params[i_], depth + 1)
+                return out
+            for ld in loads:
+                for (g, st) in follow(f, ld, 0):
+                    sites.append((f, c, g, st))
     if not sites:
         chk.broke("dir_writer.c: no position query feeds an index entry")
         return 0
